@@ -655,6 +655,11 @@ func init() {
 			return Poison{"float value of a symbolic duration"}
 		})
 	}
+	// assembly block functions: run the portable Go version the package also carries
+	reg("crypto/md5.block", func(in *Interp, fr *frame, fn *ssa.Function, args []Value) Value {
+		g := in.prog.ImportedPackage("crypto/md5").Func("blockGeneric")
+		return in.call(fr, g, args)
+	})
 	reg("time.runtimeNano", func(in *Interp, fr *frame, fn *ssa.Function, args []Value) Value {
 		return in.tb.BV(64, 0)
 	})
